@@ -419,8 +419,58 @@ fn expr_over(rng: &mut Rng, names: &[(Ex, Iv)], must: &str) -> String
 	exprgen::show(&e, rng, minimal)
 }
 
+/// an expression over the extremes of i64 (written as the tokenizer can spell them), opaque names (`#`: a register,
+/// or a name valued later) and every operator, in both nestings; not kept in range: whatever it evaluates to — a value,
+/// an overflow diagnostic, a range diagnostic — the pipeline must neither panic nor fail silently
+fn extreme_expr(rng: &mut Rng, opaque: &str, depth: u32) -> String
+{
+	const K: [&str; 16] = ["(1 << 63)", "9223372036854775807", "(0 - 9223372036854775807 - 1)", "-9223372036854775807", "(0 - 1)", "-1", "0", "1", "2",
+		"4294967296", "8589934592", "72057594037927936", "(1 << 62)", "63", "64", "0x7FFFFFFFFFFFFFFF"];
+	if depth == 0 { return if rng.chance(2, 5) { opaque.to_string() } else { rng.pick(&K).to_string() }; }
+	match rng.below(12)
+	{
+		0 => format!("-{}", extreme_expr(rng, opaque, depth - 1)),
+		1 => format!("!{}", extreme_expr(rng, opaque, depth - 1)),
+		_ =>
+		{
+			let op = *rng.pick(&exprgen::OPS);
+			let (dl, dr) = if rng.chance(1, 2) { (depth - 1, rng.below(depth as u64) as u32) } else { (rng.below(depth as u64) as u32, depth - 1) };
+			format!("({} {} {})", extreme_expr(rng, opaque, dl), op, extreme_expr(rng, opaque, dr))
+		},
+	}
+}
+
 fn invalid_stmt(g: &mut G) -> Inv
 {
+	if g.rng.chance(1, 8)
+	{
+		let rng = &mut g.rng;
+		let slot = if rng.chance(1, 2) { rng.pick(&EXTRA_SLOTS).to_string() } else { rng.pick(&[".du32 {}", ".du8 {}", ".du16 {}", ".const XT8, {}", ".du32 1, {}"]).to_string() };
+		let depth = 1 + rng.below(3) as u32;
+		return match rng.below(3)
+		{
+			// a name declared now and valued after the statement (the simplifier works on the symbolic expression first)
+			0 => { let e = extreme_expr(rng, "XT9", depth); let v = rng.pick(&["9223372036854775807", "(0 - 9223372036854775807 - 1)", "72057594037927936", "-1", "0", "3"]).to_string();
+				Inv{class: "extreme_free", parts: vec![".global XT9;".into(), format!("{};", slot.replace("{}", &e)), format!(".const XT9, {};", v)], bad: 1, place: Place::AfterAddr, expect: false, root_decl: None} },
+			// a register as the opaque operand
+			1 => { let r = rng.pick(&["R1", "r7", "SP", "R8"]).to_string(); let e = extreme_expr(rng, &r, depth);
+				Inv{class: "extreme_free", parts: vec![format!("{};", slot.replace("{}", &e))], bad: 0, place: Place::AfterAddr, expect: false, root_decl: None} },
+			// constants only
+			_ => { let e = extreme_expr(rng, "5", depth);
+				Inv{class: "extreme_free", parts: vec![format!("{};", slot.replace("{}", &e))], bad: 0, place: Place::AfterAddr, expect: false, root_decl: None} },
+		};
+	}
+	if g.rng.chance(1, 10)
+	{
+		// file scope: a constant private to the including file, used (without `.import`) in the included file, in any operand
+		// position and inside an expression of any shape: invisible there, a diagnostic at the use
+		let rng = &mut g.rng;
+		let (slot, _) = pick_slot(rng);
+		let names = vec![(Ex::Name("PV9".to_string()), (1i128, 0xFFFFi128))];
+		let stmt = format!("{};", slot.replace("{}", &expr_over(rng, &names, "PV9")));
+		let v = rng.pick(&["4", "0", "8", "0x20", "100"]).to_string();
+		return Inv{class: "private_of_includer", parts: vec![stmt], bad: 0, place: Place::AfterAddr, expect: true, root_decl: Some(format!(".const PV9, {};", v))};
+	}
 	let k = g.rng.below(27);
 	if k < 18
 	{
@@ -485,6 +535,7 @@ fn mutate_stmt(g: &mut G, base: &Prog) -> Option<(Prog, &'static str, usize, usi
 	// files included by the root itself (for a declaration in the root that an included file imports)
 	let direct: Vec<usize> = (1..p.files.len()).filter(|&i| p.files[0].1.iter().any(|s| *s == format!(".include \"{}\";", p.files[i].0))).collect();
 	let import_case = inv.root_decl.is_some() && !direct.is_empty();
+	if class == "private_of_includer" && !import_case { return None; }
 	// writes before .addr only make sense in the root; everything else may also go into an included file
 	let fi = if import_case { *g.rng.pick(&direct) }
 		else if place == Place::BeforeAddr || p.files.len() == 1 || g.rng.chance(1, 2) { 0 } else { 1 + g.rng.below(p.files.len() as u64 - 1) as usize };
@@ -532,7 +583,7 @@ fn mutate_stmt(g: &mut G, base: &Prog) -> Option<(Prog, &'static str, usize, usi
 	for (k, s) in ins.into_iter().enumerate() { stmts.insert(at + k, s); }
 	match root_pos
 	{
-		Some(r) if inv.bad == 0 => Some((p, class, 0, r, inv.expect)),
+		Some(r) if inv.bad == 0 && class != "private_of_includer" => Some((p, class, 0, r, inv.expect)),
 		_ => Some((p, class, fi, bad, inv.expect)),
 	}
 }
@@ -698,6 +749,38 @@ fn main()
 	let mut sh = Shard{k: 0, shard, n: nshards};
 	let mut g = G{rng: Rng::new(seed), uniq: 0};
 	let mut emit = |case: String, out: &mut Out| { if sh.mine() { let r = run_case(&case); out.line(&case, &r); } };
+	// stream "scope" (used by C14): multi-file programs and the invalid constructs that concern names and file scope only
+	let scope_only = std::env::args().nth(6).as_deref() == Some("scope");
+	if scope_only
+	{
+		const SCOPE: [&str; 6] = ["private_of_includer", "never_valued_import", "never_valued", "undefined", "duplicate", "register_name"];
+		let rounds = if thorough { 40_000 } else { 1_500 };
+		for _ in 0..rounds
+		{
+			g.uniq = 0;
+			let base = valid_prog(&mut g, true);
+			let style = g.rng.below(6);
+			let (proj, _) = prog_case(&base, &mut g.rng, style);
+			let base_ok = { let r = if proj.files.len() == 1 { run_pipeline(&proj.files[0].1, ROOT) } else { proj.run() }; r.success() };
+			emit(format!("{}{}", case_text(&proj), if base_ok { " VALID" } else { "" }), &mut out);
+			for _ in 0..12
+			{
+				if let Some((p, class, fi, bad, expect)) = mutate_stmt(&mut g, &base)
+				{
+					if !SCOPE.contains(&class) { continue; }
+					let style = g.rng.below(6);
+					let (proj, poss) = prog_case(&p, &mut g.rng, style);
+					let (l, c) = poss[fi][bad];
+					let mut case = format!("{} {} CLASS {}", case_text(&proj), if expect { "EXPECT-DIAG" } else { "ILLTYPED" }, class);
+					if base_ok && expect { case.push_str(&format!(" POS {} {} {}", hex_bytes(p.files[fi].0.as_bytes()), l, c)); }
+					emit(case, &mut out);
+				}
+			}
+		}
+		drop(out);
+		leave_empty_dir();
+		return;
+	}
 
 	for s in CORPUS
 	{
